@@ -24,6 +24,16 @@ EXTENDS FrameOps, TraceIO
 
 Want(r) == IF r.fam = "aligned" THEN Apply2(r.inp, r.inp2, r.op) ELSE Apply(r.inp, r.layout, r.op)
 
+(* Dtype classes.  pandas chooses some dtypes from the DATA (an integer column turns float only when
+   a NaN appears in it: where / mask / map / alignment), and dask evaluates partition by partition, so
+   a selection of rows that happen to hold no NaN may legitimately arrive as integers where pandas,
+   looking at the whole column, says float: observed "i" is accepted for a demanded "f" (the cells
+   themselves are compared exactly).  Every other difference - float where integer is demanded,
+   boolean against numeric - is a failed clause.  An empty result carries whatever dtype an empty
+   kernel call produces (data-dependent in pandas itself): nothing is demanded of it.               *)
+KindsOK(obs, want) == /\ Len(obs) = Len(want)
+                      /\ \A j \in DOMAIN want : obs[j] = want[j] \/ (want[j] = "f" /\ obs[j] = "i")
+
 RowPairs(rows) == [k \in DOMAIN rows |-> <<rows[k].idx, rows[k].v>>]
 
 Bad(r) ==
@@ -33,7 +43,7 @@ Bad(r) ==
      ELSE IF o.raised # "" THEN {"Raised"}
      ELSE Clause("Kind", o.ser = w.ser)
           \cup Clause("Cols", o.cols = w.cols)
-          \cup Clause("Dtypes", o.kinds = w.kinds)
+          \cup Clause("Dtypes", Len(o.rows) = 0 \/ KindsOK(o.kinds, w.kinds))
           \cup Clause("Whole", o.wholeok)
           \cup (IF Len(o.rows) # Len(w.rows) THEN {"NRows"}
                 ELSE IF r.order = "bag" THEN Clause("Values", SameBag(RowPairs(o.rows), RowPairs(w.rows)))
